@@ -98,9 +98,11 @@ CLAIMS = {
         ref='DESIGN.md section 5 C16',
         text='Static. Decided clauses: every comparison whose operand is a Text/Symbol/Group payload lower-cases both sides; currency/month/zone lookups normalise case and their tables are stored normalised; comment and whitespace parsers pass no token type; the comment parser claims spans before any other token producer. Not decided: invariance under extra blanks over all lines.'),
     'C17': dict(
-        technique='unit/offset-domain analysis (bytes vs chars, haystack identity) + must-pass-through',
+        technique='unit/offset-domain dataflow (bytes vs chars as an interprocedural fixpoint over fields, parameters and results), string-identity (haystack provenance) analysis, finite enumeration of interval orderings for the collision predicate, dominance rules',
         ref='DESIGN.md section 5 C17',
-        text='Static. Decided clauses: values stored into UiToken.start/end are character offsets and comparisons have equal units; a match offset is used as a line offset only when the haystack is the line or an identity copy; tokens are appended only after the collision check; sort precedes update; number/operator/comment kinds. Not decided: non-overlap over all lines as such.'),
+        text='Static. Decided clauses: H1 values stored into UiToken.start/end are character offsets, no comparison / field / parameter in the crate mixes byte and character offsets, the per-byte map is indexed with byte offsets only and get_position returns characters on every path; '
+             'H2 a regex match offset is used as a line offset only when the haystack is the tokenizer\'s identity copy of the line, and that copy and the byte->char map are built from the same string; H3 tokens are appended only after the collision test, the collision predicate rejects every one of the interval orderings that share a character (all orderings of the four end points enumerated), sort dominates every merge, a merge replaces a run by one token with the outer bounds; '
+             'H4 number / operator / comment parsers report their own kind on the group they tokenised, after the internal token was accepted. Not decided: well-formedness for all lines as such (depends on regex behaviour and on the known haystack findings).'),
     'C18': dict(
         technique='write-shape rules on the rule list / type table, sibling agreement of the three rewrite arms, panic obligations fed by user data',
         ref='DESIGN.md section 5 C18',
